@@ -257,7 +257,8 @@ theorem lexWord_ok : ∀ (src : Bytes) (pos : Pos) (mode : LexMode) (acc res : L
 theorem lexWord_start_ok (b : UInt8) (rest : Bytes) (p : Pos) (parts : List WordPart) (stop : Pos) (r : Bytes)
     (pre : List Nat) (hb : (isSafe b || b == 39) = true) (hl : lexWord (b :: rest) p .idle [] = .done parts stop r)
     (hp : Sorted (pre ++ [p.line])) :
-    Sorted (pre ++ [p.line] ++ wlines parts ++ [stop.line]) ∧ (Tok.word ⟨parts⟩ (litWord? parts)).ok := by
+    Sorted (pre ++ [p.line] ++ wlines parts ++ [stop.line]) ∧ (Word.mk parts).wf = true ∧
+      (parts.length ≥ 2 → hasSgl parts = true) := by
   have hadv : p.line ≤ (p.adv b).line := Pos.adv_line p b
   have hstart : Sorted ((pre ++ [p.line]) ++ wlines ([] : List WordPart).reverse ++ [p.line] ++ [(p.adv b).line]) := by
     have := hp.dup.snoc hadv
@@ -276,7 +277,7 @@ theorem lexWord_start_ok (b : UInt8) (rest : Bytes) (p : Pos) (parts : List Word
       exact ⟨.sgl p [], hl, ⟨by simp, by simp, by simp, trivial⟩, rfl, trivial⟩
   obtain ⟨mode, h1, h2, h3, h4⟩ := key
   obtain ⟨r1, r2, r3, r4⟩ := lexWord_ok rest (p.adv b) mode [] parts stop r (pre ++ [p.line]) h1 h2 (by rw [h3]; exact hstart)
-  refine ⟨r1, Or.inl ⟨?_, r3, rfl⟩⟩
+  refine ⟨r1, ?_, r3⟩
   have hne := r4 (Or.inr h4)
   simp only [Word.wf, Bool.and_eq_true, Bool.not_eq_true', List.isEmpty_eq_false_iff, List.all_eq_true]
   exact ⟨hne, r2⟩
@@ -309,7 +310,7 @@ theorem nextTok_ok (sk : Bool) (src : Bytes) (spos : Pos) (pre : List Nat) (hs :
         | exact ⟨h1, trivial⟩
         | exact ⟨h2, trivial⟩
         | (rename_i hb _; exact ⟨h3, Or.inr ⟨b, by simpa [or_assoc] using hb, rfl⟩⟩)
-        | (rename_i hl; exact lexWord_start_ok b rest p _ _ _ pre ‹(isSafe b || b == 39) = true› hl hp)
+        | (rename_i hl; obtain ⟨k1, k2, k3⟩ := lexWord_start_ok b rest p _ _ _ pre ‹(isSafe b || b == 39) = true› hl hp; exact ⟨k1, Or.inl ⟨k2, k3, rfl⟩⟩)
 
 /-- the token stream: its flattened lines are sorted, its word tokens are well formed -/
 theorem lexAllF_ok : ∀ (fuel : Nat) (sk : Bool) (src : Bytes) (spos : Pos) (pre : List Nat),
